@@ -185,7 +185,7 @@ def judge(b, a, act):
   renames = dict(cren)
   for o, n in tmap.items():
     renames[(o, None)] = n
-  info = {'renamed': len(renames), 'fresh': True, 'touched': 0}
+  info = {"renamed": len(renames), "fresh": True, "touched": 0, "renames": renames}
   if set(b['cols']) != set(a['cols']) or set(b['tabs']) != set(a['tabs']):
     gone = [b['cols'][cr] for cr in set(b['cols']) - set(a['cols'])]
     what = 'the rename removed %s' % ', '.join('%s.%s' % (b['tabs'][c['tref']], c['colId']) for c in gone)
@@ -334,12 +334,17 @@ def requested_name(act):
 VALUE_KINDS = ('value_changed', 'formula_not_renamed', 'rows_changed')
 
 
-def check_rename(e, act, bundles=None):
+def check_rename(e, act, bundles=None, collect=False):
   """Applies one rename action to a CLEAN document; returns (status, info, problems).
   When cell values change for no recognised reason and `bundles` (the document's history) is given, the document is
   rebuilt and compared with a from-scratch recalculation of itself: if it was already STALE before the rename
   (history-dependent values; that is C05/C06's subject), the change is not attributable to the rename."""
   b = observe(e)
+  reported = None
+  if collect:
+    reported = collections.defaultdict(list)
+    for (finfo, pos, tb, col) in e.gencode.grist_names():
+      reported[finfo].append((pos, tb, col))
   try:
     G.apply(e, [act])
   except Exception as ex:
@@ -347,6 +352,14 @@ def check_rename(e, act, bundles=None):
     return 'rejected:%s' % type(ex).__name__, {}, []
   a = observe(e)
   info, problems = judge(b, a, act)
+  if collect:
+    info['schema'] = b['schema']
+    info['formulas'] = []
+    for cr, c in sorted(b['cols'].items()):
+      if c['formula'] and cr in a['cols']:
+        tid = b['tabs'][c['tref']]
+        info['formulas'].append((tid, c['colId'], c['formula'], a['cols'][cr]['formula'],
+                                 sorted(reported.get((tid, c['colId']), []))))
   if bundles is not None and any(k in VALUE_KINDS for k, _ in problems):
     e2, _ = G.new_doc()
     for bundle in bundles:
@@ -361,7 +374,7 @@ def check_rename(e, act, bundles=None):
   return 'applied', info, problems
 
 
-def run_history(seed, stream, nb, nren):
+def run_history(seed, stream, nb, nren, collect=False):
   """Builds a document with a random acyclic formula program, then tries rename actions on it.
   Yields (bundles so far, path, action, status, info, problems, gen)."""
   rng = random.Random(seed)
@@ -384,7 +397,7 @@ def run_history(seed, stream, nb, nren):
     if r is None:
       continue
     path, act = r
-    status, info, problems = check_rename(e, act, list(done))
+    status, info, problems = check_rename(e, act, list(done), collect)
     yield list(done), path, act, status, info, problems, gen
     done.append([act])
     if status == 'applied':
@@ -442,7 +455,7 @@ def directed_bundles(rng, stream):
   return bundles, n
 
 
-def run_directed(seed, stream, nren):
+def run_directed(seed, stream, nren, collect=False):
   rng = random.Random(seed)
   bundles, n = directed_bundles(rng, stream)
 
@@ -458,7 +471,7 @@ def run_directed(seed, stream, nren):
     if r is None:
       continue
     path, act = r
-    status, info, problems = check_rename(e, act, list(done))
+    status, info, problems = check_rename(e, act, list(done), collect)
     yield list(done), path, act, status, info, problems, None
     if problems:
       e = build(done)      # continue from the document before the damaging rename
@@ -474,6 +487,268 @@ def replay(ctx, w):
   status, info, problems = check_rename(e, w['rename'], w['bundles'])
   want = w.get('kind')
   for kind, what in problems:
-    if want is None or kind == want:
+    if want is None or kind.split(':')[0] == want.split(':')[0]:
       return '%s: %s' % (kind, what)
   return None
+
+
+# ---- known findings: one matcher per root cause (the oracle's own classification, see judge) -----------------
+KINDS = ['rename_of_summary_group_column', 'rename_of_manualsort_column', 'rename_to_helper_prefix_removes_column',
+         'rename_table_reinterprets_alt_text_in_reference_columns', 'ref_to_table_named_like_function',
+         'comprehension_over_reference_list']
+
+
+def _kind_matcher(name):
+  return lambda violation, entry: str(violation.get('kind', '')).split(':')[0] == name
+MATCHERS = {k: _kind_matcher(k) for k in KINDS}
+
+
+# ---- Coq terms -----------------------------------------------------------------------------------------------
+def zl(s):
+  return core.zlist([ord(c) for c in s])
+
+
+def coq_occ(o):
+  pos, t, c = o
+  return '(%s, %s, %s)' % (core.zlit(pos), zl(t), 'None' if c is None else '(Some %s)' % zl(c))
+
+
+def coq_renames(renames):
+  rt = ['(%s, %s)' % (zl(t), zl(n)) for (t, c), n in sorted(renames.items(), key=repr) if c is None]
+  rc = ['(%s, %s, %s)' % (zl(t), zl(c), zl(n)) for (t, c), n in sorted(renames.items(), key=repr) if c is not None]
+  return ('(%s : list (name * name))' % core.coq_list(rt), '(%s : list (name * name * name))' % core.coq_list(rc))
+
+
+def coq_schema(schema):
+  tabs = []
+  for t, cols in sorted(schema.items()):
+    if t.startswith('_grist_'):
+      continue
+    cs = []
+    for c, (ctype, _isf, _f) in cols.items():
+      if ctype.startswith('Ref:'):
+        ty = '(CRef %s)' % zl(ctype[4:])
+      elif ctype.startswith('RefList:'):
+        ty = '(CRefList %s)' % zl(ctype[8:])
+      else:
+        ty = 'CPlain'
+      cs.append('mkcol %s %s None []' % (zl(c), ty))
+    tabs.append('mktab %s %s [] []' % (zl(t), core.coq_list(cs)))
+  return core.coq_list(tabs)
+
+
+EXTRA_DEFS = '''
+Require Import Grist.Model.Renames Grist.Model.RenamesPrint.
+Definition res_is (r : R text) (o : option text) : bool :=
+  match r, o with ROk a, Some b => name_eqb a b | RErr _, None => true | _, _ => false end.
+'''
+
+
+def replacer_cases(ctx):
+  """(text, patches, impl result or None when it raises ValueError) for textbuilder.Replacer over textbuilder.Text."""
+  import textbuilder
+  r = ctx.rng
+  out = []
+  alphabet = 'ab$. _xé"(=)\n'
+  for i in range(ctx.n(300, 3000)):
+    text = ''.join(r.choice(alphabet) for _ in range(r.choice([0, 1, 3, 6, 10, 16])))
+    patches = []
+    for _ in range(r.choice([0, 1, 1, 2, 3, 4])):
+      a = r.randint(0, len(text) + 1)
+      b = a + r.choice([0, 1, 1, 2, 3])
+      if r.random() < 0.85:
+        old = text[a:b]
+      else:
+        old = r.choice(['', 'a', 'zz'])            # a patch that does not fit: ValueError
+      patches.append(textbuilder.Patch(a, b, old, r.choice(['', 'Q', 'new', 'a', 'éé'])))
+    if patches and r.random() < 0.15:
+      patches.append(r.choice(patches))            # the same position reported twice
+    r.shuffle(patches)
+    try:
+      res = textbuilder.Replacer(textbuilder.Text(text), patches).get_text()
+    except ValueError:
+      res = None
+    out.append((text, patches, res))
+  return out
+
+
+def run_streams(ctx):
+  """All engine runs of one check: random histories and the directed documents, in the three streams.
+  Returns the list of judged renames: dicts(stream, mode, seed, bundles, path, act, status, info, problems, trees)."""
+  plan = [('main', 'random', ctx.n(36, 700)), ('main', 'directed', ctx.n(2, 30)),
+          ('clash', 'directed', ctx.n(1, 10)), ('gaps', 'directed', ctx.n(1, 10)),
+          ('clash', 'random', ctx.n(2, 60)), ('gaps', 'random', ctx.n(2, 60))]
+  out = []
+  for stream, mode, n in plan:
+    for _ in range(n):
+      seed = ctx.rng.randrange(1 << 30)
+      if mode == 'random':
+        it = run_history(seed, stream, 8, 5, collect=True)
+      else:
+        it = run_directed(seed, stream, ctx.n(7, 14), collect=True)
+      for done, path, act, status, info, problems, gen in it:
+        out.append({'stream': stream, 'mode': mode, 'seed': seed, 'bundles': done, 'path': path, 'act': act,
+                    'status': status, 'info': info, 'problems': problems,
+                    'trees': dict(gen.trees) if gen is not None else {}})
+  return out
+
+
+def monitor_names_complete(ctx, runs):
+  """names_complete: on every formula of the judged documents, the positions the real name discovery reports are
+  exactly the occurrences the independent locator finds (for names of existing tables/columns), each a whole NAME
+  token or the content of a string literal."""
+  seen = set()
+  bad = 0
+  for r in runs:
+    info = r['info']
+    if 'formulas' not in info:
+      continue
+    sch = info['schema']
+    loc = c16loc.Locator(sch, follow_gaps=False)
+    exists = lambda t, c: t in sch and (c is None or c in sch[t])
+    for tid, cid, old, _new, reported in info['formulas']:
+      key = (tid, cid, old, json.dumps(sorted(sch.get(tid, {})), default=repr))
+      if key in seen:
+        continue
+      seen.add(key)
+      occs = loc.occurrences(tid, old)
+      if occs is None:
+        ctx.bump('monitor:unparsable formula')
+        continue
+      mine = sorted(o.key() for o in occs if exists(o.table, o.col))
+      real = sorted(x for x in reported if exists(x[1], x[2]))
+      ctx.bump('monitor:formulas compared')
+      toks = c16loc.tokens_at(old)
+      tok_bad = [x for x in real if not c16loc.token_ok(toks, x[0], x[0] + len(x[2] if x[2] is not None else x[1]))]
+      if mine != real or tok_bad:
+        bad += 1
+        if bad <= 3:
+          ctx.broken('monitor:names_complete',
+                     'formula %r of %s.%s: parse_grist_names reports %r, the independent locator finds %r; '
+                     'not name tokens: %r' % (old, tid, cid, real, mine, tok_bad))
+  ctx.extra['names_complete_formulas'] = len(seen)
+
+
+def correspond(ctx):
+  runs = run_streams(ctx)
+  ctx._c16_runs = runs
+  ctx.log('engine runs: %d rename actions judged' % len(runs))
+  monitor_names_complete(ctx, runs)
+  ctx.log('names_complete monitored on %d formulas' % ctx.extra.get('names_complete_formulas', 0))
+  # (1) textbuilder.Replacer vs replacer_text
+  rc = replacer_cases(ctx)
+  terms = []
+  for text, patches, res in rc:
+    ps = core.coq_list(['mkpatch %s %s %s %s' % (core.zlit(p.start), core.zlit(p.end), zl(p.old_text), zl(p.new_text))
+                        for p in patches])
+    terms.append('(%s, %s, %s)' % (zl(text), ps, core.optlit(res, zl)))
+  bad = ctx.run_cases('replacer', [], 'fun c => res_is (replacer_text (fst (fst c)) (snd (fst c))) (snd c)', terms,
+                      shard=500, extra_defs=EXTRA_DEFS)
+  for i in bad[:3]:
+    ctx.broken('correspondence:replacer_text differs from textbuilder.Replacer', repr(rc[i]))
+  ctx.extra['replacer_cases'] = len(rc)
+  # (2) _prepare_formula_renames vs rename_text, (3) the printers, (4) ren + pr vs the formula the engine wrote
+  t2, t3, t4, src2, src4 = [], [], [], [], []
+  seen3 = set()
+  for r in runs:
+    info = r['info']
+    if r['status'] != 'applied' or 'formulas' not in info or not info['renames']:
+      continue
+    rt, rcs = coq_renames(info['renames'])
+    for tid, cid, old, new, reported in info['formulas']:
+      if len(t2) < ctx.n(400, 4000) and (old != new or len(t2) % 3 == 0):
+        t2.append('(%s, %s, %s, %s, %s)' % (zl(old), core.coq_list([coq_occ(o) for o in reported]), rt, rcs, zl(new)))
+        src2.append((old, reported, info['renames'], new))
+      tree = r['trees'].get(old)
+      if tree is not None and r['stream'] != 'clash':
+        if old not in seen3:
+          seen3.add(old)
+          t3.append('(%s, %s)' % (c16gen.coq(tree), zl(old)))
+        if len(t4) < ctx.n(250, 2500):
+          t4.append('(%s, %s, %s, %s, %s, %s)' % (coq_schema(info['schema']), zl(tid), c16gen.coq(tree), rt, rcs, zl(new)))
+          src4.append((tid, old, info['renames'], new))
+  bad = ctx.run_cases('renametext', [],
+                      'fun c => match c with (old, rep, rt, rc, new) => '
+                      'res_is (rename_text (rt_of rt) (rc_of rc) old rep) (Some new) end', t2, shard=400,
+                      extra_defs=EXTRA_DEFS)
+  for i in bad[:3]:
+    ctx.broken('correspondence:rename_text differs from _prepare_formula_renames', repr(src2[i]))
+  bad = ctx.run_cases('printer', [], 'fun c => name_eqb (pr_text (fst c)) (snd c)', t3, shard=400, extra_defs=EXTRA_DEFS)
+  for i in bad[:3]:
+    ctx.broken('correspondence:Coq pr differs from the harness printer', t3[i][:400])
+  bad = ctx.run_cases('rentree', [],
+                      'fun c => match c with (d, self, f, rt, rc, new) => '
+                      'name_eqb (pr_text (ren (rt_of rt) (rc_of rc) d self [] f)) new end', t4, shard=120,
+                      extra_defs=EXTRA_DEFS)
+  for i in bad[:3]:
+    ctx.broken('correspondence:ren (tree level) differs from the formula the engine wrote', repr(src4[i]))
+  ctx.extra.update({'rename_text_cases': len(t2), 'printer_cases': len(t3), 'tree_rename_cases': len(t4)})
+
+
+def search(ctx):
+  runs = getattr(ctx, '_c16_runs', None)
+  if runs is None:
+    runs = run_streams(ctx)
+  reported_kinds = collections.Counter()
+  for r in runs:
+    info = r['info']
+    exercised = r['status'] == 'applied' and info.get('renamed', 0) > 0 and info.get('touched', 0) > 0
+    ctx.count((r['seed'], r['act']), nontrivial=exercised,
+              sample={'rename': r['act'], 'path': r['path'], 'renamed_entities': info.get('renamed'),
+                      'formulas_rewritten': info.get('touched')} if exercised else None,
+              kind='%s/%s/%s' % (r['stream'], r['path'], r['status'] if r['status'] != 'applied' else
+                                 ('rewrote' if exercised else ('renamed' if info.get('renamed') else 'no-op'))))
+    if r['status'] == 'applied' and info.get('renamed') and not info.get('fresh', True):
+      ctx.bump('new name already mentioned by a formula (values not compared)')
+    for kind, what in r['problems']:
+      reported_kinds[kind] += 1
+      if reported_kinds[kind] > 3:
+        continue          # one root cause is reported with at most three witnesses
+      w = {'bundles': r['bundles'], 'rename': r['act'], 'kind': kind}
+      if kind.split(':')[0] not in KINDS:
+        # an unrecognised failure: minimise the history before reporting it
+        def fails(bs, act=r['act'], kind=kind):
+          return replay(ctx, {'bundles': bs, 'rename': act, 'kind': kind}) is not None
+        try:
+          if fails(w['bundles']):
+            w['bundles'] = histgen.shrink_list(w['bundles'], fails, max_steps=60)
+        except Exception:
+          pass
+      ctx.violation(kind, what, w)
+  ctx.extra['problem_kinds'] = dict(reported_kinds)
+
+
+RULE = ('random acyclic documents (HistGen with formulas generated from trees in every supported reference form: $c, '
+        'rec.c, chains through Ref/RefList columns, lookupOne/lookupRecords keywords, order_by strings, .all, '
+        'comprehensions over lookups and .all, PREVIOUS/NEXT/RANK group_by/order_by, summary-table formulas) kept CLEAN, '
+        'plus directed two-table documents with one formula per reference form (incl. .find.*, f-strings, assignments, '
+        'nested comprehensions); then rename actions by every path (RenameColumn, RenameTable, colId / tableId metadata '
+        'update, label with untieColIdFromLabel unset/true/false) to targets including keywords, names needing sanitising, '
+        'colliding names, id/group/count/manualSort/gristHelper_ names; streams `clash` (tables named like a function) and '
+        '`gaps` (comprehensions over reference lists) exercise the registered root causes. A case is non-trivial when the '
+        'rename was applied, renamed at least one entity and rewrote at least one formula.')
+TRUSTED = ['Model/Renames.v eval: the semantics of the formula forms (hand-written; not compared with the engine cell by cell)',
+           'astroid name discovery (codebuilder.parse_grist_names): premise names_complete, monitored on every formula of '
+           'the generated documents against harness/c16loc.py (stdlib ast/tokenize)',
+           'CPython tokenisation of the patched text (premise of the text round trip)',
+           'harness/c16gen.py printer (compared with the Coq printer on every generated tree)']
+ASSUMPTIONS = ['fresh new name: not a column of the table / table of the document and not mentioned by any formula',
+               'supported reference forms only (wf_static): every attribute, keyword and order_by/group_by name has a '
+               'statically known table; comprehension variables only over lookups and .all',
+               'neither the old nor the new column name is `group` (C16_refuted_summary_group)',
+               'builtins do not inspect table names (proved for the standard ones; str(record) shows the table id and is '
+               'keyed through the rename by the oracle)']
+TECHNIQUE = ('Coq proof of equivariance of an executable formula semantics under injective renamings + text-level model '
+             'of textbuilder.Replacer proved to touch only the reported name spans; differential cases (Replacer, '
+             '_prepare_formula_renames, tree-level rename vs the formulas the engine writes) + monitored oracle hypothesis '
+             '+ engine-level search over every rename path')
+LEVEL_TEXT = ('Kernel-checked: for every document, formula, row and fuel, consistently renaming tables/columns in schema '
+              'and references leaves every value unchanged (general injective renamings; corollaries for one fresh column '
+              'or table name), round trips restore formulas, and the text produced by patching the reported name positions '
+              'is the old text with exactly those name tokens replaced and equals the print of the renamed tree. The '
+              'statement without the `group` side condition is refuted in the model (C16_refuted_summary_group) and on the '
+              'engine.')
+LEVEL_NOTE = ('Kernel strength: name discovery (astroid) is an oracle whose completeness is a monitored premise; the '
+              'evaluation semantics is a hand-written model. Implementation-only findings (not in the model): tables '
+              'named like a function, renaming manualSort, gristHelper_ targets, alt text in reference columns on '
+              'RenameTable.')
